@@ -133,17 +133,18 @@ def flatten(items):
     """
     A recursive function that flattens a list.
 
+    The input is left untouched: a new list is returned.
+
     :param items: input list
     :return: list with the same elements of the input list but a single nesting level.
     """
-    try:
-        for i, x in enumerate(items):
-            while isinstance(x, (list, tuple)) and not isinstance(x, (str, bytes)):
-                items[i : i + 1] = x
-                x = items[i]
-    except IndexError:
-        pass
-    return items
+    flat = []
+    for x in items:
+        if isinstance(x, (list, tuple)) and not isinstance(x, (str, bytes)):
+            flat.extend(flatten(x))
+        else:
+            flat.append(x)
+    return flat
 
 
 def sign() -> Iterator[int]:
